@@ -100,6 +100,58 @@ class Sources(Source):
                 self.defs[q] = n
 
 
+class SourceSet(Source):
+    """several source files read as one *with their class hierarchy* (SrcWkt): the definitions of all of them by qualified
+    name, plus the base classes of every class, so that an inherited method is found where Python finds it"""
+
+    def __init__(self, paths):
+        self.path = paths[0]
+        self.paths = list(paths)
+        self.defs, self.bases, self.where = {}, {}, {}
+        for p in paths:
+            s = Source(p)
+            for q, d in s.defs.items():
+                if q in self.defs:
+                    raise Unsupported(f'`{q}` is defined in {os.path.basename(self.where[q])} and {os.path.basename(p)}')
+                self.defs[q], self.where[q] = d, p
+            for n in s.tree.body:
+                if isinstance(n, ast.ClassDef):
+                    if n.name in self.bases:
+                        raise Unsupported(f'class `{n.name}` is defined twice')
+                    self.bases[n.name] = [b.id if isinstance(b, ast.Name) else ast.unparse(b) for b in n.bases]
+
+    def mro(self, cls):
+        """C3 linearisation over the classes of these files (bases defined elsewhere — ABC, Protocol — hold no method of
+        interest and are left out)"""
+        if cls not in self.bases:
+            raise Unsupported(f'class `{cls}` not found')
+        parents = [b for b in self.bases[cls] if b in self.bases]
+        seqs = [self.mro(b) for b in parents] + [list(parents)]
+        out = [cls]
+        while any(seqs):
+            seqs = [s for s in seqs if s]
+            for s in seqs:
+                head = s[0]
+                if not any(head in t[1:] for t in seqs):
+                    break
+            else:
+                raise Unsupported(f'no consistent method resolution order for `{cls}`')
+            out.append(head)
+            seqs = [[x for x in s if x != head] for s in seqs]
+        return out
+
+    def resolve(self, cls, attr, after=None):
+        """qualified name of the definition `cls().attr` reaches (`after`: the search starts behind that class, as
+        `super()` inside a method of `after` does); None when no class of the set defines it"""
+        order = self.mro(cls)
+        if after is not None:
+            order = order[order.index(after) + 1:] if after in order else []
+        for c in order:
+            if f'{c}.{attr}' in self.defs:
+                return f'{c}.{attr}'
+        return None
+
+
 # ----------------------------------------------------------------------------------------------------------
 # instances
 
@@ -348,6 +400,8 @@ class FnTr:
                     self.env[n] = Val('true' if d.value else 'false', 'Bool')
                 elif isinstance(d, ast.Constant) and d.value is None:
                     self.env[n] = Val('()', 'None')
+                elif isinstance(d, ast.Constant) and isinstance(d.value, int) and unit.hooks.get('wkt_text'):
+                    self.env[n] = Val(f'({d.value} : Int)', 'Int')
                 # other defaults stay unbound: using them is reported as an unsupported name
 
     def sub(self):
@@ -849,6 +903,13 @@ class FnTr:
             first, others = test.values[0], test.values[1:]
             more = others[0] if len(others) == 1 else ast.BoolOp(op=ast.Or(), values=others)
             return self.branch(first, then_k, lambda tr: tr.branch(more, then_k, else_k))
+        if isinstance(test, ast.BoolOp) and self.u.hooks.get('wkt_text') and self.may_raise(test.values[0]):
+            # `(A and B) or C` where B may raise: the operands are tested one after the other (SrcWkt)
+            first, others = test.values[0], test.values[1:]
+            more = others[0] if len(others) == 1 else ast.BoolOp(op=test.op, values=others)
+            if isinstance(test.op, ast.And):
+                return self.branch(first, lambda tr: tr.branch(more, then_k, else_k), else_k)
+            return self.branch(first, then_k, lambda tr: tr.branch(more, then_k, else_k))
         if isinstance(test, ast.BoolOp) and any(self.may_raise(v) for v in test.values[1:]):
             # `A and B` / `A or B` where B may raise: B is evaluated (and can raise) only when A does not decide the test
             first, others = test.values[0], test.values[1:]
@@ -912,8 +973,24 @@ class FnTr:
         except Unsupported:
             return None
         if v.path is not None and v.typ.startswith('Opt '):
+            if node is test and self.has_falsy_value(v.typ[4:]):
+                # bare `if x:` / `x or y` / `not x` on an Optional whose values can be falsy (0.0, 0, '', [], False) is NOT a
+                # presence test: left to `truth`, which refuses it unless the unit handles it
+                return None
             return v, positive
         return None
+
+    def has_falsy_value(self, typ):
+        """can a (non-None) value of this static type be falsy?  `Dt`, `TI`, records / shapes and whatever the unit lists in
+        `always_truthy` can not; numbers, strings, booleans and containers can."""
+        if typ in ('Dt', 'TI') or typ in self.u.hooks.get('always_truthy', ()):
+            return False
+        if typ in ('R', 'Td', 'Int', 'Nat', 'N', 'Str', 'Chars', 'Bool') or typ in self.u.hooks.get('falsy_types', ()) \
+                or typ.split()[0] in ('List', 'Set', 'Dict', 'Opt', 'DDL'):
+            return True
+        lt = lean_type(typ)
+        return lt in ('Int', 'Rat', 'Nat', 'Bool', 'String', 'Float', 'α', 'F', 'Char') or \
+            lt.split()[0] in ('List', 'Option', 'Array')
 
     def static_test(self, test):
         """True / False when the test is decided by the static types of this instance, else None"""
@@ -1032,6 +1109,13 @@ class FnTr:
             if not isinstance(value, ast.Tuple) or len(value.elts) != len(tgt.elts):
                 raise Unsupported(f'`{self.inst.qual}`: tuple assignment from a non-tuple')
             vals = [self.expr(e) for e in value.elts]        # right-hand sides are all evaluated first
+            if self.u.hooks.get('wkt_text'):
+                for i, (t, v) in enumerate(zip(tgt.elts, vals)):       # element types of `[]` / `{}` inside a tuple assignment
+                    if '?' in v.typ and isinstance(t, ast.Name):
+                        hint = self.u.hooks.get('local_type', lambda q, n: None)(self.inst.qual, t.id)
+                        if not hint:
+                            raise Unsupported(f'`{self.inst.qual}`: element type of `{t.id}` is not declared')
+                        vals[i] = Val(f'({v.text} : {lean_type(hint)})', hint)
             pairs = list(zip(tgt.elts, vals))
         elif isinstance(tgt, ast.Name) and self.cells_display(tgt.id, value):
             vals = [self.expr(x) for x in value.elts]
@@ -2569,6 +2653,10 @@ class FnTr:
             ext = self.pc_expr(e)                # int-indexed lists, `/` that raises, map / dict comprehensions, …: see `pc_expr`
             if ext is not None:
                 return ext
+        if self.u.hooks.get('wkt_text'):
+            ext = self.wk_expr(e)                # strings, sequences, map comprehensions, `{}`: see `wk_expr`
+            if ext is not None:
+                return ext
         if self.u.hooks.get('local_defs'):
             ext = self.ld_expr(e)                # products, `*pair`, `/`, local calls / constructors, `len`, `set(gen)`, …: see `ld_expr`
             if ext is not None:
@@ -2907,6 +2995,10 @@ class FnTr:
             tmpl, typ = spec
             return Val(tmpl.format(base.text), typ, path=(f'{base.path}.{e.attr}' if base.path else None))
         cls = self.u.class_of(base.typ)
+        if cls and self.u.hooks.get('wkt_text') and 'resolve' in self.u.hooks:
+            q = self.u.hooks['resolve'](cls, e.attr)
+            if q and self.u.src.is_property(q):
+                return self.apply(self.wk_find(q, (), base.typ), [base])
         if cls and (self.u.src.is_property(f'{cls}.{e.attr}') or (f'{cls}.{e.attr}', ()) in self.u.externals):
             inst = self.u.find(f'{cls}.{e.attr}', ())
             return self.apply(inst, [base])
@@ -2925,6 +3017,11 @@ class FnTr:
 
     def compare2(self, a, op, b):
         num = ('Dt', 'Td', 'Int')
+        if self.u.hooks.get('wkt_text') and isinstance(op, (ast.Is, ast.IsNot)) and b.typ == 'None':
+            if a.typ.startswith('Opt '):
+                return Val(f'({a.text}).{"isNone" if isinstance(op, ast.Is) else "isSome"}', 'Bool')      # `x is None` as a value
+            if a.typ not in ('None', 'Kw') and '?' not in a.typ:
+                return Val('false' if isinstance(op, ast.Is) else 'true', 'Bool')       # a value already known to be present
         if self.u.hooks.get('local_defs'):
             r = self.ld_compare2(a, op, b)
             if r is not None:
@@ -3029,6 +3126,12 @@ class FnTr:
         return v
 
     def call(self, e):
+        if self.u.hooks.get('wkt_text'):
+            r = self.wk_call(e)                  # class hierarchies, strings, sequences: see `wk_call`
+            if isinstance(r, Val):
+                return r
+            if r is not None:
+                e = r                            # the call with its keyword arguments put in their positions
         if e.keywords and not all(k.arg is None for k in e.keywords):
             hook = self.u.hooks.get('keywords')
             if not (hook and hook(self, e)):
@@ -3365,6 +3468,196 @@ class FnTr:
             body = body.replace('Except.ok true', 'true').replace('Except.ok false', 'false')
         return Val(f'(({xs.text}).filter (fun {x} =>\n{_indent(body, 4)}))', xs.typ)
 
+    # ---- unit hook `wkt_text` (SrcWkt): Python strings as Lean `String`s, finite sequences as lists, methods found through
+    # the class hierarchy of a `SourceSet`.  Everything below is reached only from the three dispatch lines in `_expr`,
+    # `call`, `compare2`, `attribute`, `branch` and `FnTr.__init__` that test the hook.
+    def wk_find(self, qual, argtypes, recv=None):
+        """the instance of `qual` at these argument types; several classes inherit one definition: the instance declared for
+        this receiver type, if there is one (a classmethod's `cls` is a receiver like `self`)"""
+        argtypes = tuple(argtypes)
+        cands = [i for i in self.u.insts if i.qual == qual and
+                 tuple(t for n, t in i.params if n not in ('self', 'cls')) == argtypes]
+        for i in cands:
+            if recv is not None and i.params and i.params[0][0] in ('self', 'cls') and i.params[0][1] == recv:
+                return i
+        if cands:
+            return cands[0]
+        return self.u.find(qual, argtypes)
+
+    def wk_expr(self, e):
+        if isinstance(e, ast.Constant) and isinstance(e.value, str):
+            return Val(_lean_str(e.value), 'Str')
+        if isinstance(e, ast.JoinedStr):
+            # an f-string whose fields are strings (no conversion, no format spec): the concatenation of its parts
+            parts = []
+            for p in e.values:
+                if isinstance(p, ast.Constant) and isinstance(p.value, str):
+                    parts.append(_lean_str(p.value))
+                elif isinstance(p, ast.FormattedValue) and p.conversion == -1 and p.format_spec is None:
+                    v = self.expr(p.value)
+                    if v.typ != 'Str':
+                        raise Unsupported(f'f-string field `{ast.unparse(p.value)[:60]}` of type {v.typ}')
+                    parts.append(v.text)
+                else:
+                    raise Unsupported(f'f-string part `{ast.unparse(p)[:60]}`')
+            return Val('(' + ' ++ '.join(parts or ['""']) + ')', 'Str')
+        if isinstance(e, ast.BinOp) and isinstance(e.op, ast.Add) and self.wk_type_of(e.left) == 'Str':
+            a, b = self.expr(e.left), self.expr(e.right)
+            if b.typ != 'Str':
+                raise Unsupported(f'`{ast.unparse(e)[:60]}`: Str + {b.typ}')
+            return Val(f'({a.text} ++ {b.text})', 'Str')
+        if isinstance(e, ast.BoolOp) and isinstance(e.op, ast.Or) and len(e.values) == 2 \
+                and (self.wk_type_of(e.values[0]) or '').startswith('List '):
+            a, b = self.expr(e.values[0]), self.expr(e.values[1])
+            if a.typ != b.typ:
+                raise Unsupported(f'`{ast.unparse(e)[:60]}`: {a.typ} or {b.typ}')
+            return Val(f'(if !({a.text}).isEmpty then {a.text} else {b.text})', a.typ)          # `xs or ys`
+        if isinstance(e, ast.Dict) and not e.keys:
+            return Val('[]', 'Dict ?')                 # `{}`: typed by the unit's `local_type`
+        if isinstance(e, ast.ListComp) and len(e.generators) == 1 and not e.generators[0].ifs \
+                and isinstance(e.generators[0].target, ast.Name):
+            return self.wk_map_comp(e)               # `[f(x) for x in xs]`
+        if isinstance(e, ast.Subscript) and (self.wk_type_of(e.value) or '').startswith('List '):
+            sl = e.slice
+            neg1 = isinstance(sl, ast.UnaryOp) and isinstance(sl.op, ast.USub) and isinstance(sl.operand, ast.Constant) \
+                and sl.operand.value == 1
+            rev = isinstance(sl, ast.Slice) and sl.lower is None and sl.upper is None and isinstance(sl.step, ast.UnaryOp) \
+                and isinstance(sl.step.op, ast.USub) and isinstance(sl.step.operand, ast.Constant) and sl.step.operand.value == 1
+            take = isinstance(sl, ast.Slice) and sl.lower is None and sl.step is None and isinstance(sl.upper, ast.Constant) \
+                and isinstance(sl.upper.value, int) and not isinstance(sl.upper.value, bool) and sl.upper.value >= 0
+            drop = isinstance(sl, ast.Slice) and sl.upper is None and sl.step is None and isinstance(sl.lower, ast.Constant) \
+                and isinstance(sl.lower.value, int) and not isinstance(sl.lower.value, bool) and sl.lower.value >= 0
+            idx = isinstance(sl, ast.Constant) and isinstance(sl.value, int) and not isinstance(sl.value, bool) and sl.value >= 0
+            if not (neg1 or rev or take or drop or idx):
+                return None
+            v = self.expr(e.value)
+            if rev:
+                return Val(f'(({v.text}).reverse)', v.typ)        # xs[::-1]
+            if take:
+                return Val(f'(({v.text}).take {sl.upper.value})', v.typ)        # xs[:n]
+            if drop:
+                return Val(f'(({v.text}).drop {sl.lower.value})', v.typ)        # xs[n:]
+            r = Val(f'(GV.Py.getLast {_paren(v.text)})', v.typ[5:]) if neg1 else \
+                Val(f'(GV.Py.getIdx {_paren(v.text)} {sl.value})', v.typ[5:])        # xs[-1], xs[i]: IndexError
+            r.raises = True
+            return r
+        return None
+
+    def wk_type_of(self, e):
+        """static type of an expression, translated on a scratch copy (None when it does not translate)"""
+        t = self.sub()
+        t.fresh = self.fresh
+        try:
+            return t.expr(e, allow_raise=True).typ
+        except Unsupported:
+            return None
+
+    def wk_map_comp(self, e):
+        """`[f(x) for x in xs]` / `(f(x) for x in xs)` -> `xs.map (fun x => f x)`; with an element that may raise -> `GV.Py.mapE`"""
+        g = e.generators[0]
+        xs = self.expr(g.iter)
+        if not xs.typ.startswith('List '):
+            raise Unsupported(f'comprehension over {xs.typ}')
+        x = self.gensym(lname(g.target.id))
+        inner = self.sub()
+        inner.fresh = self.fresh
+        inner.env[g.target.id] = Val(x, xs.typ[5:], path=g.target.id)
+        inner.narrow.pop(g.target.id, None)
+        v = inner.expr(e.elt, allow_raise=True)
+        if inner.pending or getattr(v, 'raises', False):
+            # an element that may raise: evaluated left to right, the first exception ends the comprehension
+            if not self.inst.raises:
+                raise Unsupported(f'`{self.inst.qual}`: a call that may raise inside `{ast.unparse(e)[:60]}`')
+            body = inner.wrap(v.text if getattr(v, 'raises', False) else inner.ok(v.text))
+            self.fresh = inner.fresh
+            r = Val(f'(GV.Py.mapE (fun {x} => (show {lean_type("Except " + v.typ)} from\n{_indent(body, 4)})) {_paren(xs.text)})',
+                    'List ' + v.typ)
+            r.raises = True
+            return r
+        self.fresh = inner.fresh
+        if v.text == x:
+            return Val(xs.text, xs.typ)
+        return Val(f'(({xs.text}).map (fun {x} => {v.text}))', 'List ' + v.typ)
+
+    def wk_str_method(self, recv, attr, args):
+        """`sep.join(xs)` over a list / generator of strings, `s.lower()`"""
+        if attr == 'join' and len(args) == 1:
+            a = args[0]
+            xs = self.wk_map_comp(a) if isinstance(a, ast.GeneratorExp) and len(a.generators) == 1 and not a.generators[0].ifs \
+                and isinstance(a.generators[0].target, ast.Name) else self.expr(a)
+            if xs.typ != 'List Str':
+                raise Unsupported(f'join over {xs.typ}')
+            return Val(f'(String.intercalate {_paren(recv.text)} {_paren(xs.text)})', 'Str')
+        if attr == 'lower' and not args:
+            return Val(f'(({recv.text}).toLower)', 'Str')
+        raise Unsupported(f'`{self.inst.qual}`: string method `.{attr}`')
+
+    def wk_call(self, e):
+        """a Val (the call is translated here), a rewritten ast.Call (keyword arguments put in their positions) or None"""
+        if 'call_whole' in self.u.hooks:
+            r = self.u.hooks['call_whole'](self, e)          # a call the unit reads as a whole (declared in srcunits)
+            if r is not None:
+                return r
+        rewritten = None
+        if e.keywords and 'bind_keywords' in self.u.hooks:
+            rewritten = self.u.hooks['bind_keywords'](self, e)
+            if rewritten is not None:
+                e = rewritten
+        if e.keywords and not all(k.arg is None for k in e.keywords):
+            return rewritten
+        f = e.func
+        if isinstance(f, ast.Name) and not e.keywords and len(e.args) == 1 and f.id in ('len', 'list', 'tuple', 'reversed') \
+                and f.id not in self.env:
+            v = self.expr(e.args[0])
+            if f.id == 'len' and (v.typ.startswith('List ') or v.typ == 'Str'):
+                return Val(f'(({v.text}).length : Int)', 'Int')
+            if f.id == 'list' and v.typ == 'Str':
+                return Val(f'(({v.text}).toList)', 'List Chr')        # list('zm') == ['z', 'm']
+            if f.id != 'len' and v.typ.startswith('List '):
+                # every finite sequence (list, tuple, the iterator of `reversed`) is the list of its elements
+                return Val(f'(({v.text}).reverse)', v.typ) if f.id == 'reversed' else Val(v.text, v.typ, path=v.path)
+            raise Unsupported(f'{f.id}() of {v.typ}')
+        if not isinstance(f, ast.Attribute):
+            return rewritten
+        resolve = self.u.hooks.get('resolve')
+        if isinstance(f.value, ast.Call) and isinstance(f.value.func, ast.Name) and f.value.func.id == 'super' \
+                and not f.value.args and 'super_method' in self.u.hooks:
+            return self.u.hooks['super_method'](self, f.attr, e.args)
+        if isinstance(f.value, ast.Name) and f.value.id not in self.env and f'{f.value.id}.{f.attr}' in self.u.intrinsics:
+            return rewritten
+        if isinstance(f.value, ast.Name) and f.value.id not in self.env and resolve \
+                and f.value.id in getattr(self.u.src, 'bases', {}):
+            # `Class.method(…)`: a classmethod / staticmethod reached through the class name
+            qual = resolve(f.value.id, f.attr)
+            if qual is None:
+                raise Unsupported(f'`{self.inst.qual}`: `{f.value.id}.{f.attr}` not found')
+            args = [self.expr(a) for a in e.args]
+            inst = self.wk_find(qual, tuple(a.typ for a in args))
+            has_cls = bool(inst.params) and inst.params[0][0] == 'cls'
+            return self.apply(inst, ([Val('()', inst.params[0][1])] if has_cls else []) + args)
+        recv = self.expr(f.value)
+        if recv.typ == 'Str':
+            return self.wk_str_method(recv, f.attr, e.args)
+        cls = self.u.class_of(recv.typ)
+        qual = (resolve(cls, f.attr) if resolve and cls else None) or (f'{cls}.{f.attr}' if cls else None)
+        if qual and qual in self.u.intrinsics:
+            return self.u.intrinsics[qual](self, [recv] + [self.expr(a) for a in e.args])
+        hook = self.u.hooks.get('method')
+        if hook:
+            r = hook(self, recv, f.attr, e.args)
+            if r is not None:
+                return r
+        args = [self.expr(a) for a in e.args]
+        ab = self.u.abstract.get((recv.typ, f.attr, tuple(a.typ for a in args)))
+        if ab:
+            tmpl, typ = ab
+            return Val('(' + tmpl.format(*[_paren(x.text) for x in [recv] + args]) + ')', typ)
+        if qual and qual in self.u.src.defs:
+            inst = self.wk_find(qual, tuple(a.typ for a in args), recv.typ)
+            first = inst.params[0][0] if inst.params else None       # a staticmethod takes no receiver
+            return self.apply(inst, ([recv] if first == 'self' else [Val('()', inst.params[0][1])] if first == 'cls' else []) + args)
+        raise Unsupported(f'`{self.inst.qual}`: method `.{f.attr}` of {recv.typ} at {tuple(a.typ for a in args)}')
+
     def any_all(self, which, g):
         tgt = g.generators[0].target if len(g.generators) == 1 else None
         pair = isinstance(tgt, ast.Tuple) and len(tgt.elts) == 2 and all(isinstance(t, ast.Name) for t in tgt.elts)
@@ -3647,3 +3940,20 @@ def _path(e):
 
 def _indent(s, n=2):
     return textwrap.indent(s, ' ' * n)
+
+
+def _lean_str(s):
+    """a Lean string literal"""
+    out = []
+    for ch in s:
+        if ch in ('"', '\\'):
+            out.append('\\' + ch)
+        elif ch == '\n':
+            out.append('\\n')
+        elif ch == '\t':
+            out.append('\\t')
+        elif 32 <= ord(ch) < 127:
+            out.append(ch)
+        else:
+            out.append('\\u{%x}' % ord(ch))
+    return '"' + ''.join(out) + '"'
